@@ -9,6 +9,12 @@ CLAIMS = {
         "note": "Decides the formulas for the enumerated shapes (all shapes the tables support; contraction operators on ranks <= 3). Does not decide construction-time simplification inside as_tensor etc. (C05). " + TB,
         "technique": "abstract interpretation of the formula tables into Q[x] (constant propagation of shapes, unrolling, inlining) + exact polynomial normal forms against an oracle",
     },
+    "C08": {
+        "level": "other",
+        "text": "apply() of every pullback class (identity, co-/contravariant, L2, double co-/contravariant, covariant-contravariant Piola; Mixed and Symmetric compositions) is lifted from source on symbolic reference values with block axes, for square and immersed geometries, and compared exactly with the textbook push-forward; physical_value_shape is lifted and compared with that push-forward's shape; the applier's dispatch table and shape guards are checked. Decides the formulas and layouts for the instantiated shapes (ranks <= mapped+2, dims <= 3), not arbitrary nesting depth.",
+        "note": "J, K, detJ independent symbols; numpy reshape/ndindex modelled by documented row-major semantics; MeshSequence branches not instantiated. " + TB,
+        "technique": "abstract interpretation of pullback.apply into Q[J,K,1/detJ,r] with exact polynomial comparison against an oracle push-forward; dispatch-table and guard checks on the AST",
+    },
 }
 
 NOT_APPLICABLE = {
